@@ -1081,7 +1081,7 @@ theorem C04_store_strips (rl : List String) (ext ser : List Lbl) :
   · have := (List.mem_filter.mp h).2
     simp [hrl] at this
 
-theorem groupCopiesF_spec : ∀ (n : Nat) (cs : List (List Lbl × Nat × List Sample)),
+theorem groupCopiesF_spec : ∀ (n : Nat) (cs : List (List Lbl × Nat × List (List Sample))),
     (∀ g ∈ groupCopiesF n cs, ∃ c ∈ cs, c.1 = g.1) ∧ (groupCopiesF n cs).Pairwise (fun a b => a.1 ≠ b.1) := by
   intro n
   induction n with
@@ -1112,7 +1112,7 @@ theorem groupCopiesF_spec : ∀ (n : Nat) (cs : List (List Lbl × Nat × List Sa
         simp at this
 
 /-- the fuel `cs.length` suffices: every copy lands in a group -/
-theorem groupCopiesF_complete : ∀ (n : Nat) (cs : List (List Lbl × Nat × List Sample)), cs.length ≤ n →
+theorem groupCopiesF_complete : ∀ (n : Nat) (cs : List (List Lbl × Nat × List (List Sample))), cs.length ≤ n →
     ∀ c ∈ cs, ∃ g ∈ groupCopiesF n cs, g.1 = c.1 := by
   intro n
   induction n with
@@ -1157,11 +1157,11 @@ theorem C04_one_series_per_labelset (rl : List String) (stores : List TStore) :
 /-- the HA-pair-behind-two-receivers example: four copies, one logical series -/
 example : (selectTSDB true true ["receive_replica", "prometheus_replica"] 0 100
     [{ ext := [("receive_replica", "r1"), ("region", "eu")],
-       series := [([("__name__", "up"), ("prometheus_replica", "p1")], [⟨10, 1⟩, ⟨20, 2⟩]),
-                  ([("__name__", "up"), ("prometheus_replica", "p2")], [⟨10, 1⟩, ⟨20, 2⟩])] },
+       series := [([("__name__", "up"), ("prometheus_replica", "p1")], [[⟨10, 1⟩], [⟨20, 2⟩]]),
+                  ([("__name__", "up"), ("prometheus_replica", "p2")], [[⟨10, 1⟩], [⟨20, 2⟩]])] },
      { ext := [("receive_replica", "r2"), ("region", "eu")],
-       series := [([("__name__", "up"), ("prometheus_replica", "p1")], [⟨10, 1⟩, ⟨20, 2⟩]),
-                  ([("__name__", "up"), ("prometheus_replica", "p2")], [⟨10, 1⟩, ⟨20, 2⟩])] }])
+       series := [([("__name__", "up"), ("prometheus_replica", "p1")], [[⟨10, 1⟩], [⟨20, 2⟩]]),
+                  ([("__name__", "up"), ("prometheus_replica", "p2")], [[⟨10, 1⟩], [⟨20, 2⟩]])] }])
     = [("__name__=up,region=eu", some [⟨10, 1⟩, ⟨20, 2⟩])] := by decide
 
 /-! ### regenerated facts: the querier pieces the model transliterates -/
